@@ -12,7 +12,7 @@ class Scalar:
         return [(path, self)]
 
     def is_char(self):
-        return self.size == 1 and self.width is None
+        return self.size == 1 and self.width is None and self.name != "_Bool"
 
 
 class Array:
@@ -92,6 +92,8 @@ def sub(t, i):
 
 
 def truncate(v, t):
+    if t.name == "_Bool":
+        return 1 if v != 0 else 0
     bits = t.width or t.size * 8
     v &= (1 << bits) - 1
     if t.signed and v >= 1 << (bits - 1):
@@ -179,6 +181,7 @@ class Ref:
                         if d[1] not in names:
                             raise Invalid("no such member")
                         stack[-1][1] = names.index(d[1])
+                        self.activate(t, stack[-1][1], p)
                     else:
                         if not isinstance(t, Array):
                             raise Invalid("index designator in struct")
@@ -285,7 +288,10 @@ class Gen:
 
     def val(self):
         self.v += 1
-        return ("expr", self.v if self.rnd.random() < 0.85 else -self.v)
+        k = self.rnd.random()
+        if k < 0.08:
+            return ("expr", self.rnd.choice([300, 65537, 0x1234567890, -129, 256, 1 << 40, -(1 << 33) - 5]) + self.v)
+        return ("expr", self.v if k < 0.87 else -self.v)
 
     def nleaves(self, t):
         if isinstance(t, Scalar):
@@ -368,12 +374,16 @@ IN3 = Struct("In3", [("a", CHAR), ("b", Array(SHORT, 2)), ("c", LONG)])
 UN = Struct("Un", [("i", INT), ("c", Array(CHAR, 4)), ("l", LONG)], union=True)
 BF = Struct("Bf", [("p", Scalar("int", 4, True, 3)), ("", Scalar("int", 4, True, 2)), ("q", Scalar("unsigned int", 4, False, 5)), ("", Scalar("int", 4, True, 0)),
                    ("r", Scalar("int", 4, True, 9)), ("t", INT)])
+BOOL_ = Scalar("_Bool", 1, False)
+BF2 = Struct("Bf2", [("a", Scalar("long", 8, True, 64)), ("b", Scalar("long", 8, True, 40)), ("c", Scalar("unsigned long", 8, False, 24)),
+                     ("f", Scalar("_Bool", 1, False, 1)), ("g", BOOL_), ("h", Scalar("unsigned long", 8, False, 64)), ("k", Array(BOOL_, 2))])
 OUT = Struct("Out", [("n", INT), ("pts", Array(P2, 2)), ("in", IN3), ("s", Array(CHAR, 4)), ("u", UN), ("z", LONG)])
 DEEP = Struct("Deep", [("m", Array(Array(INT, 2), 2)), ("o", OUT), ("bf", BF)])
 TYPES = [
     ("p2", P2), ("in3", IN3), ("arr5", Array(INT, 5)), ("mat", Array(Array(INT, 3), 2)), ("pts", Array(P2, 3)), ("un", UN), ("bf", BF),
     ("out", OUT), ("deep", DEEP), ("str8", Array(CHAR, 8)), ("unk_int", Array(INT, None)), ("unk_p2", Array(P2, None)), ("unk_char", Array(CHAR, None)),
     ("unk_in3", Array(IN3, None)), ("arr_un", Array(UN, 2)), ("strs", Array(Array(CHAR, 4), 3)),
+    ("bf2", BF2), ("arr_bf2", Array(BF2, 2)),
 ]
 
 
